@@ -104,6 +104,10 @@ pub fn run(reg: &dyn Registry, ctx: &Ctx) -> Outcome {
             scripts.push((0..n).map(|i| (i % 251 + 1) as u8).collect());
             scripts.push(vec![0xff; n]);
             scripts.push(alphabet::bg_bytes(ctx.seed, 0x0902, n));
+            if !is_isaac {
+                // blocks made of documented constants (e.g. XorShiftRng's zero-seed preset) are ordinary seeds
+                scripts.extend(super::common::documented_constant_seeds(*ty).into_iter().filter(|s| s.iter().any(|&b| b != 0)));
+            }
             let follow = alphabet::bg_bytes(ctx.seed, 0x0903, 64);
             for s in &scripts {
                 let mut full = s.clone();
@@ -145,7 +149,7 @@ pub fn run(reg: &dyn Registry, ctx: &Ctx) -> Outcome {
             // (b2) leading all-zero blocks: XorShiftRng redraws (and only then), everybody else builds from
             // exactly the one block delivered
             if !is_isaac {
-                for z in 1..=6usize {
+                for z in alphabet::zero_block_counts(if thorough { 65536 } else { 4096 }).into_iter().filter(|&z| z >= 1) {
                     for blk in [alphabet::with_bits(n, &[0]), alphabet::with_bits(n, &[8 * n - 1]), alphabet::bg_bytes(ctx.seed, 0x0905, n)] {
                         let mut script = vec![0u8; z * n];
                         script.extend_from_slice(&blk);
@@ -172,15 +176,16 @@ pub fn run(reg: &dyn Registry, ctx: &Ctx) -> Outcome {
             }
 
             // fault enumeration: z leading all-zero blocks, failure at call f in each mode
-            let zmax = if info.family == Family::XorShift { 4 } else { 1 };
             let last = alphabet::bg_bytes(ctx.seed, 0x0904, n);
-            for z in 0..=zmax {
+            let zs: Vec<usize> = if info.family == Family::XorShift { vec![0, 1, 2, 3, 4, 15, 16, 17, 255, 256, 257, 1023, 1024, 1025] } else { vec![0, 1] };
+            for z in zs {
                 let mut script = vec![0u8; z * n];
                 script.extend_from_slice(&last);
                 script.extend_from_slice(&follow);
                 // number of source calls the documented procedure makes
                 let calls_made = if info.family == Family::XorShift { z + 1 } else { 1 };
-                for f in 0..=calls_made + 1 {
+                let fs: Vec<usize> = if calls_made <= 6 { (0..=calls_made + 1).collect() } else { vec![0, 1, calls_made / 2, calls_made - 2, calls_made - 1, calls_made, calls_made + 1] };
+                for f in fs {
                     for mode in [FaultMode::Untouched, FaultMode::Partial, FaultMode::Full] {
                         let code = 1000 + (f as u32) * 10 + mode as u32;
                         let mut fs = FallibleSource::new(script.clone(), Some(f), mode, code);
